@@ -792,7 +792,13 @@ class Request:
             # isn't supposed to mess with it, so it should be what
             # the client actually sent.
             host_header = self.env['HTTP_HOST']
-            host, port = parse_host(host_header)
+            try:
+                host, port = parse_host(host_header)
+            except ValueError:
+                raise errors.HTTPInvalidHeader(
+                    'The value must be a valid host, optionally followed by a port number.',
+                    'Host',
+                )
         except KeyError:
             # PERF(kgriffs): According to PEP-3333, this header
             # will always be present.
@@ -986,7 +992,12 @@ class Request:
                 self._cached_access_route = []
                 for hop in self.forwarded or ():
                     if hop.src is not None:
-                        host, __ = parse_host(hop.src)
+                        try:
+                            host, __ = parse_host(hop.src)
+                        except ValueError:
+                            # NOTE: RFC 7239 permits an obfuscated port (e.g.
+                            #   "192.0.2.43:_hidden"); only the host matters here.
+                            host = hop.src.rpartition(':')[0].strip('[]')
                         self._cached_access_route.append(host)
             elif 'HTTP_X_FORWARDED_FOR' in self.env:
                 addresses = self.env['HTTP_X_FORWARDED_FOR'].split(',')
@@ -1036,7 +1047,13 @@ class Request:
             host_header = self.env['HTTP_HOST']
 
             default_port = 80 if self.env['wsgi.url_scheme'] == 'http' else 443
-            _, port = parse_host(host_header, default_port=default_port)
+            try:
+                _, port = parse_host(host_header, default_port=default_port)
+            except ValueError:
+                raise errors.HTTPInvalidHeader(
+                    'The value must be a valid host, optionally followed by a port number.',
+                    'Host',
+                )
         except KeyError:
             # NOTE(kgriffs): Normalize to an int, since that is the type
             # returned by parse_host().
